@@ -171,6 +171,11 @@ impl<const K: usize> Default for Node<K> {
                 let b = DEFAULT_BEHAV.with(|b| b.borrow().clone());
                 BEHAV.with(|m| m.borrow_mut().insert(id, b));
                 emit(format!("svcnew {} {}", id, K));
+                if let Some(TaskKind::Client(c)) = c.current_kind() {
+                    if let Some(o) = crate::prog::CUR_REG.with(|m| m.borrow().get(&c).copied()) {
+                        emit(format!("rspawn {} {} {}", o, id, K));
+                    }
+                }
                 Node::new(id)
             }
         }
